@@ -110,6 +110,8 @@ def generate_triples(rows, values, representative=False):
             elif kind == "own":
                 o = node_term(byid[tgt[1]], i)
                 owned_later.append(byid[tgt[1]])
+            elif kind == "litref":     # a plain literal whose lexical form is the IRI of an instance (must stay a literal)
+                o = ("lit", DT["string"], node_term(byid[tgt[1]], 0)[1])
             elif kind == "class":      # value of a non-instantiation property that is a class IRI (plain IRI)
                 o = ("iri", EX + tgt[1])
             else:
